@@ -9,6 +9,38 @@ static std::string unhex(const char* h) { std::string r; if (h[0] == '-') return
 // reference: number of code points the way the iteration defines them (lead byte decides, truncated tail counts once per lead)
 int main(int argc, char** argv)
 {
+	if (argc < 2) return 2;
+	if (std::string(argv[1]) == "battery") {
+		// every scalar value: standard UTF-8, round trips through UTF-32 / UTF-16, iteration, count
+		for (int c = 1; c < 0x110000; c++) { if (c >= 0xD800 && c <= 0xDFFF) continue; int in[2] = { c, 0 }; char u8[8]; int back[4]; wchar_t w[4]; char u8b[8];
+			int n = utf32toUtf8(in, u8, 1); int len = c < 0x80 ? 1 : c < 0x800 ? 2 : c < 0x10000 ? 3 : 4; unsigned char e[4];
+			if (len == 1) e[0] = c; else if (len == 2) { e[0] = 0xC0 | (c >> 6); e[1] = 0x80 | (c & 63); } else if (len == 3) { e[0] = 0xE0 | (c >> 12); e[1] = 0x80 | ((c >> 6) & 63); e[2] = 0x80 | (c & 63); }
+			else { e[0] = 0xF0 | (c >> 18); e[1] = 0x80 | ((c >> 12) & 63); e[2] = 0x80 | ((c >> 6) & 63); e[3] = 0x80 | (c & 63); }
+			if (n != len || memcmp(u8, e, len)) { printf("REPRODUCED utf32toUtf8(U+%04X) is not the standard encoding\n", c); return 1; }
+			if (utf8toUtf32(u8, back, n) != 1 || back[0] != c) { printf("REPRODUCED utf8toUtf32(utf8(U+%04X)) = U+%04X\n", c, back[0]); return 1; }
+			int nw = utf8toUtf16(u8, w, n); int nb = utf16toUtf8(w, u8b, nw); if (nb != n || memcmp(u8, u8b, n)) { printf("REPRODUCED UTF-8 -> UTF-16 -> UTF-8 of U+%04X changes the text\n", c); return 1; }
+			if ((c & 0xff) == 0x41 || c < 0x3000) { String s(u8, n); String::Enumerator it = s.all(); int code = *it; if (code != c || it.n != n || s.count() != 1) { printf("REPRODUCED iteration / count over U+%04X\n", c); return 1; } } }
+		// truncated and malformed tails at every string length 0..40 (exact-size heap copies: ASan sees a read past the terminator)
+		{ const char* tails[] = { "\xC3", "\xE2", "\xE2\x82", "\xF0", "\xF0\x9F", "\xF0\x9F\x98", "\x80", "\xFF", "\xC0\x80", "\xED\xA0\x80" };
+		  for (int pre = 0; pre <= 40; pre++) for (const char* tl : tails) { std::string t(pre, 'a'); t += tl; char* ex = (char*)malloc(t.size() + 1); memcpy(ex, t.data(), t.size() + 1);
+			int* o32 = (int*)malloc((t.size() + 1) * sizeof(int)); wchar_t* o16 = (wchar_t*)malloc((t.size() + 1) * sizeof(wchar_t));
+			int n32 = utf8toUtf32(ex, o32, (int)t.size()), n16 = utf8toUtf16(ex, o16, (int)t.size()); if (n32 < 0 || n32 > (int)t.size() || n16 < 0 || n16 > (int)t.size()) { printf("REPRODUCED converter result out of range\n"); return 1; }
+			String s(t.data(), (int)t.size()); int k = 0; const char* end = *s + s.length(); for (String::Enumerator e2 = s.all(); e2; ++e2) { int code = *e2; (void)code; if (e2.u + e2.n > end) { printf("REPRODUCED iteration steps over the terminator (%d bytes + truncated tail)\n", pre); return 1; } k++; }
+			int cnt = s.count(); if (cnt < 0 || cnt > (int)t.size()) { printf("REPRODUCED count() = %d for %d bytes\n", cnt, (int)t.size()); return 1; }
+			String up = s.toUpperCase(), lo = s.toLowerCase(); (void)up; (void)lo; free(ex); free(o32); free(o16); } }
+		// case: ASCII and Latin-1/Greek/Cyrillic samples, and pairs whose UTF-8 length changes under folding
+		{ struct { const char* a; const char* b; bool eq; } pairs[] = { { "Hello", "hELLO", true }, { "stra\xC3\x9F" "e", "STRA\xC3\x9F" "E", true }, { "\xC3\x89t\xC3\xA9", "\xC3\xA9T\xC3\x89", true }, { "\xCE\xA9mega", "\xCF\x89MEGA", true },
+			{ "\xE2\x84\xAA", "k", true }, { "\xE2\x84\xAA" "elvin", "Kelvin", true }, { "\xC4\xB1", "I", false }, { "abc", "abd", false }, { "abc", "abcd", false }, { "", "", true }, { "\xD0\x96", "\xD0\xB6", true }, { "\xC5\xBF", "S", true } };
+		  for (auto& p : pairs) { String a(p.a), b(p.b); bool want = a.toLowerCase() == b.toLowerCase();   /* the statement: equality of the lower-cased forms */
+			if (a.equalsNocase(b) != want || b.equalsNocase(a) != want) { printf("REPRODUCED equalsNocase(\"%s\", \"%s\") = %d, but their lower-cased forms are %s\n", p.a, p.b, (int)a.equalsNocase(b), want ? "equal" : "different"); return 1; } }
+		  // every code point against its own lower- and upper-cased form (their UTF-8 lengths may differ), embedded in a longer string
+		  for (int c = 1; c < 0x2200; c++) { if (c >= 0xD800 && c <= 0xDFFF) continue; int in[2] = { c, 0 }; char u8[8]; int n = utf32toUtf8(in, u8, 1); String one(u8, n); String a2 = String("x") + one + "yz";
+			String forms[2] = { a2.toLowerCase(), a2.toUpperCase() };
+			for (int f = 0; f < 2; f++) { bool want = a2.toLowerCase() == forms[f].toLowerCase(); if (a2.equalsNocase(forms[f]) != want || forms[f].equalsNocase(a2) != want) { printf("REPRODUCED equalsNocase of U+%04X and its %s-cased form (%d vs %d bytes) = %d, equality of the lower-cased forms = %d\n", c, f ? "upper" : "lower", a2.length(), forms[f].length(), (int)a2.equalsNocase(forms[f]), (int)want); return 1; }
+				if (forms[f].length() > a2.length()) { printf("REPRODUCED case mapping of U+%04X produced more bytes than its input\n", c); return 1; } } }
+		  String m("MiXeD \xC3\x89\xC3\xA9 123"); if (m.toUpperCase() != "MIXED \xC3\x89\xC3\x89 123" || m.toLowerCase() != "mixed \xC3\xA9\xC3\xA9 123") { printf("REPRODUCED toUpperCase / toLowerCase of a mixed string\n"); return 1; } }
+		printf("OK\n"); return 0;
+	}
 	if (argc < 3) return 2;
 	if (std::string(argv[1]) == "value") {   // value <code point>: standard encodings and round trips on the real library
 		int c = atoi(argv[2]); int in[2] = { c, 0 }; char u8[8]; int back[4]; wchar_t w[4]; char u8b[8];
